@@ -3,6 +3,7 @@ CONSTANTS NCalls <- TraceMaxCalls
  VarTrees <- AnyTrees
  HeaderModes <- AnyHdr
  Reuse <- Bools
+ OpNames <- AllOpNames
  Deviations <- NoDev
 INVARIANT NoInterference
 INVARIANT OwnResponse
